@@ -28,7 +28,7 @@ class C14(BaseCheck):
           'same method/args; every 3rd value case then issues 2-7 concurrent calls on a fresh client against a slow '
           'server (decoded requests must be exactly the calls made, each caller gets its own reply); every 4th case also '
           'calls a same-named method of two services that extend the same base service (different argument structs) '
-          'from one process, in a seeded order; in 40% of the cases a single send() accepts only 1-200 bytes. non-trivial = at least 2 chunkings completed; distinct by (interface, '
+          'from one process, in a seeded order; every 3rd case ends with 3-8 calls of one method on the same client whose replies alternate between value / void success and declared exception; in 40% of the cases a single send() accepts only 1-200 bytes. non-trivial = at least 2 chunkings completed; distinct by (interface, '
           'method, value classes, outcome kind, chunking class)')
   ANCHORS = ('scales.thrift.serializer:MessageSerializer.SerializeThriftCall',
              'scales.thrift.serializer:MessageSerializer.DeserializeThriftCall',
@@ -36,7 +36,7 @@ class C14(BaseCheck):
   REQUIRED_ANCHORS = ANCHORS
   REQUIRED_CLASSES = ('outcome:value', 'outcome:declared-exc', 'outcome:app-exc', 'outcome:void',
                       'iface:hello', 'iface:verif', 'iface:ext', 'chunk:1cut', 'chunk:2cut', 'chunk:kcut',
-                      'text:nonascii', 'text:empty', 'concurrent', 'two-services', 'short-sends')
+                      'text:nonascii', 'text:empty', 'concurrent', 'two-services', 'short-sends', 'alternating-outcomes')
   ASSUMPTIONS = ('interfaces: the repository\'s hello.Hello plus a hand-written module in the shape the '
                  'Thrift compiler emits (py:dynamic); no Thrift compiler is available offline',)
   QUICK_CASES = 480
@@ -91,6 +91,8 @@ class C14(BaseCheck):
       return iface, 'ping', (), {}, ('void',)
     if k == 'fail':
       s = gen_text(rng)
+      if s.endswith(':FINE'):
+        s = s + 'x'
       return iface, 'fail', (s,), {}, ('declared', s, len(s))
     if k == 'vfail':
       s = 'no' + gen_text(rng)
@@ -245,6 +247,44 @@ class C14(BaseCheck):
             {'method': 'concurrent'})
           break
       client2.DispatcherClose()
+    # ---- one client, one method, replies of different kinds one after the other: a value, then a
+    # declared exception, then a value again (fail); an exception, then a void success (vfail)
+    if idx % 3 == 1 and iface_kind != 'hello':
+      classes.add('alternating-outcomes')
+      plan['chunks'] = None
+      plan['delay'] = 0.001
+      seq = []
+      for _i in range(rng.choice([3, 5, 8])):
+        m_ = rng.choice(['fail', 'fail', 'vfail'])
+        good = rng.random() < 0.5
+        t_ = gen_text(rng)
+        if m_ == 'fail':
+          a_ = (t_ + ':FINE') if good else (t_ + 'x' if t_.endswith(':FINE') else t_)
+          want_ = ('value', 'fine:' + a_) if good else ('declared', a_, len(a_))
+        else:
+          a_ = ('ok' + t_) if good else ('no' + t_)
+          want_ = ('void',) if good else ('declared', a_, len(a_))
+        seq.append((m_, a_, want_))
+      for m_, a_, want_ in seq:
+        out.obligations += 1
+        try:
+          got_ = ('ok', getattr(client, m_)(a_))
+        except BaseException as e:  # noqa
+          got_ = ('raised', e)
+        inner_ = getattr(got_[1], 'inner_exception', None)
+        if want_[0] == 'value':
+          ok_ = got_ == ('ok', want_[1])
+        elif want_[0] == 'void':
+          ok_ = got_ == ('ok', None)
+        else:
+          ok_ = got_[0] == 'raised' and isinstance(got_[1], ScalesError) and isinstance(inner_, ttypes.VerifError) \
+            and (inner_.why, inner_.code) == (want_[1], want_[2])
+        if not ok_:
+          out.violate('sequence:outcome-misreported', '%s(%r) in a sequence of alternating outcomes on one client: expected %r, '
+                      'caller got %s %r (inner %r); sequence so far %r' % (
+                        m_, a_, want_, got_[0], got_[1], inner_, [(x[0], x[2][0]) for x in seq]),
+                      {'method': m_, 'outcome': want_[0]})
+          break
     # ---- two services in one process whose interfaces extend the same base service and share a
     # method name with different argument structs: each client must marshal with its own classes
     if idx % 4 == 1:
